@@ -23,6 +23,9 @@ flock 9
 build vcheck
 case "$ID:$TIER" in
   C17:*|C11:thorough|C01:thorough) build vcheck-race -race ;;
+  C08:*) # the repository's own command line tool, driven as OS processes
+    (R=$(pwd); cd /repo && go build -o $R/bin/garbled.$$ ./apps/garbled) 2>bin/build.garbled.log && mv bin/garbled.$$ bin/garbled || {
+      echo "BUILD FAILED (apps/garbled)" >&2; cat bin/build.garbled.log >&2; exit 3; } ;;
 esac
 flock -u 9
 exec ./bin/vcheck run "$ID" --tier "$TIER"
